@@ -310,13 +310,19 @@ func doTraverseMap(newMatches *orderedmap.OrderedMap, node *CandidateNode, wante
 			}
 		} else if splat || (prefs.ExactKeyMatch && key.Value == wantedKey) || (!prefs.ExactKeyMatch && keyMatches(key, wantedKey)) {
 			log.Debug("MATCHED")
+			// entries found again through a merge key replace those found before; which entry is "the same" goes by
+			// the key, and the keys 1 and "1" of one map are two keys
+			kindOfKey := ""
+			if key.Tag != "!!str" {
+				kindOfKey = " " + key.Tag
+			}
 			if prefs.IncludeMapKeys {
 				log.Debug("including key")
-				newMatches.Set(key.GetKey(), key)
+				newMatches.Set(key.GetKey()+kindOfKey, key)
 			}
 			if !prefs.DontIncludeMapValues {
 				log.Debug("including value")
-				newMatches.Set(value.GetKey(), value)
+				newMatches.Set(value.GetKey()+kindOfKey, value)
 			}
 		}
 	}
